@@ -2358,4 +2358,127 @@ example :
     (run hsEnv hsS0 (hsOps.take 7)).pool = [22, 23] ∧ (run hsEnv hsS0 (hsOps.take 10)).pool = [23, 27] ∧
     (run hsEnv hsS0 (hsOps.take 10)).pointer = 3 := by decide
 
+-- ================================================================== is an accepted block replayable? — not always
+
+/-- the honest formulation of "`ChainValid` of every block that gets applied": a block that `play` ACCEPTS, on a node
+whose state is "a well-formed base state `R` + a valid pool" with fresh ids everywhere, is accepted by a fresh replica
+that is at `R` (`todoBlock`: every transaction of the block admitted in block order) -/
+def accepted_block_replayable_statement : Prop :=
+  ∀ (e : Env) (s : St) (lh : Int) (b : Block) (R : St),
+    KVInv e R → PoolValid e s.pool R → s.pool.Nodup → TRefines s (applyPool e s.pool R) →
+    (∀ i ∈ s.pool ++ b.txs, ∀ o, lookup R.U (i, o) = none) →
+    (∀ i ∈ s.pool ++ b.txs, ∀ k o, curVer R k ≠ some (i, o)) →
+    FrozenInv e R → (∀ i ∈ s.pool ++ b.txs, StaticFrozen e i ∧ TxWF e i) → b.txs.Nodup →
+    (play e s lh b).2 = .ok → (todoBlock e R lh b).isSome = true
+
+-- The witness (found by random search on the executable model, to be replayed on the Go code). Base state: key "b" live at
+-- version (1,0). Pool = [10]: transaction 10 only READS "b"@(1,0) (no token part, no write). Block 2 = [99, 30, 10]: the
+-- award 99, the NEW transaction 30 that overwrites "b"@(1,0), then the pending 10. The node: nothing conflicts (10 is in the
+-- block, so it is not examined by the conflict test), 99 and 30 are admitted and applied, 10 is skipped as already applied —
+-- the block is ACCEPTED. A fresh replica applies 99, 30 and then refuses 10: its read "b"@(1,0) is stale, the key is at
+-- (30,0). The tables of the node are nevertheless those of the (unchecked) replay, because 10 writes nothing
+-- (`play_refines` needs `BlockValid` only to exclude exactly this).
+private def arEnv : Env := {
+  txs := [
+    (1, ⟨1, false, [], [], [⟨"b", none⟩], [⟨"b", "x", false⟩]⟩),
+    (10, ⟨10, false, [], [], [⟨"b", some (1, 0)⟩], []⟩),
+    (30, ⟨30, false, [], [], [⟨"b", some (1, 0)⟩], [⟨"b", "y", false⟩]⟩),
+    (99, ⟨99, true, [], [⟨"m", 7, 0⟩], [], []⟩)],
+  blocks := [(1, ⟨1, none, 1, [1], "m"⟩), (2, ⟨2, some 1, 2, [99, 30, 10], "m"⟩)] }
+private def arR : St := { ZU := [("b", (1, 0))], pointer := 1 }
+private def arS : St := { applyPool arEnv [10] arR with pool := [10] }
+
+example : (play arEnv arS 0 (arEnv.block 2)).2 = .ok ∧ (todoBlock arEnv arR 0 (arEnv.block 2)).isSome = false ∧
+    (play arEnv arS 0 (arEnv.block 2)).1.pool = [] ∧
+    curVer (play arEnv arS 0 (arEnv.block 2)).1 "b" = some (30, 0) ∧
+    admitTx (replayTxs arEnv "m" [99, 30] arR) 0 (arEnv.tx 10) = .rwset := by decide
+
+/-- **an accepted block is NOT always replayable**: the pending member of the block is skipped by the node although an
+earlier, new transaction of the block overwrote a key version it read -/
+theorem accepted_block_replayable_refuted : ¬ accepted_block_replayable_statement := by
+  intro h
+  have := h arEnv arS 0 (arEnv.block 2) arR (by apply KVInv_of_rows <;> decide)
+    ⟨⟨0, by decide⟩, ⟨by decide, by decide, by decide⟩, absent_of_rows _ _ (by decide), by decide, trivial⟩
+    (by decide) ((TRefines.refl _).of_tables ⟨rfl, rfl, rfl, rfl⟩ ⟨rfl, rfl, rfl, rfl⟩)
+    (fun i hi => absent_of_rows _ i (by revert i hi; decide))
+    (fun i hi => verFresh_of_rows _ i (by revert i hi; decide) (by revert i hi; decide))
+    (frozenInv_of_rows _ _ (by decide)) (by decide) (by decide) (by decide)
+  revert this
+  decide
+
+-- ================================================================== walking away and back
+
+/-- after a successful walk the pool is a part of the old pool (the re-admitted transactions) -/
+private theorem walk_pool_sub (e : Env) (s : St) (lh : Int) (dest : Nat) (prune : Bool)
+    (hok : (walk e s lh dest prune).2 = true) : ∀ j ∈ (walk e s lh dest prune).1.pool, j ∈ s.pool := by
+  unfold walk at hok ⊢
+  simp only at hok ⊢
+  have hp0 : ({ (s.pool.reverse.foldl (fun st i => undoTx e st (e.tx i)) s) with pool := [] } : St).pool = [] := rfl
+  generalize hs0 : ({ (s.pool.reverse.foldl (fun st i => undoTx e st (e.tx i)) s) with pool := [] } : St) = s0
+    at hp0 hok ⊢
+  have hup := undoAll_pool e prune (undoTodo e s.pointer dest).1 s0
+  generalize hua : walk.undoAll e prune (undoTodo e s.pointer dest).1 s0 = ua at hup hok ⊢
+  obtain ⟨s1, ok1⟩ := ua
+  simp only at hup
+  by_cases hok1 : ok1 = true
+  · simp only [hok1, Bool.not_true, Bool.false_eq_true, ↓reduceIte] at hok ⊢
+    have ht := todoAll_eq e lh (undoTodo e s.pointer dest).2 s1
+    generalize hta : walk.todoAll e lh (undoTodo e s.pointer dest).2 s1 = ta at ht hok ⊢
+    obtain ⟨s2, ok2⟩ := ta
+    simp only at ht
+    by_cases hok2 : ok2 = true
+    · simp only [hok2, Bool.not_true, Bool.false_eq_true, ↓reduceIte] at hok ⊢
+      intro j hj
+      have hs2 : s2.pool = [] := by rw [ht hok2, replayChain_pool, hup, hp0]
+      rcases foldl_doTx_pool_sub e lh s.pool s2 j hj with h | h
+      · rw [hs2] at h; cases h
+      · exact h
+    · simp [hok2] at hok
+  · simp [hok1] at hok
+
+/-- **undoing cancels applying, at the level of histories**: a node that satisfies the invariant with an empty pool,
+walks (successfully) to any registered block `dest` — across a fork, undoing and applying any number of blocks — and walks
+back, shows exactly the observables it showed before: same pointer, every UTXO row, the version of every key, the total;
+the pool is still empty. (With pending transactions the same holds up to the pool: the final state satisfies the
+invariant at the old tip with the re-admitted part of the pool — `chain_refines`.) -/
+theorem undo_cancels_apply_history (e : Env) (g s : St) (lh lh' : Int) (dest : Nat) (prune prune' : Bool)
+    (he : EnvOK e g) (h : Inv e g s) (hp : s.pool = []) (hdest : dest ∈ e.blocks.map (·.1))
+    (hok1 : (walk e s lh dest prune).2 = true)
+    (hok2 : (walk e (walk e s lh dest prune).1 lh' s.pointer prune').2 = true) :
+    (walk e (walk e s lh dest prune).1 lh' s.pointer prune').1.pointer = s.pointer ∧
+    (walk e (walk e s lh dest prune).1 lh' s.pointer prune').1.pool = [] ∧
+    ObsT (walk e (walk e s lh dest prune).1 lh' s.pointer prune').1 s := by
+  have hp1 : (walk e s lh dest prune).1.pool = [] := by
+    apply List.eq_nil_iff_forall_not_mem.mpr
+    intro j hj
+    have := walk_pool_sub e s lh dest prune hok1 j hj
+    rw [hp] at this; cases this
+  have h1 : Inv e g (walk e s lh dest prune).1 :=
+    inv_walk e g s lh dest prune he h ⟨hok1, hdest, fun i hi => by rw [hp1] at hi; cases hi⟩
+  have hp2 : (walk e (walk e s lh dest prune).1 lh' s.pointer prune').1.pool = [] := by
+    apply List.eq_nil_iff_forall_not_mem.mpr
+    intro j hj
+    have := walk_pool_sub e _ lh' s.pointer prune' hok2 j hj
+    rw [hp1] at this; cases this
+  have h2 : Inv e g (walk e (walk e s lh dest prune).1 lh' s.pointer prune').1 :=
+    inv_walk e g _ lh' s.pointer prune' he h1 ⟨hok2, h.known, fun i hi => by rw [hp2] at hi; cases hi⟩
+  have hpt := walk_reaches_any e _ lh' s.pointer prune' he.lower (he.blockId _ h.known) hok2
+  refine ⟨hpt, hp2, ?_⟩
+  have a := h2.refines
+  rw [hp2, hpt] at a
+  have b := h.refines
+  rw [hp] at b
+  exact a.obs.trans b.obs.symm
+
+-- non-vacuity: the node of the history example after its first eight operations' worth of blocks — here simply the
+-- canonical state of block 2 — walks across the fork to block 3 and back
+example :
+    let s : St := { canon hsEnv prG 2 with pool := [], pointer := 2 }
+    s.pool = [] ∧ 3 ∈ hsEnv.blocks.map (·.1) ∧ (walk hsEnv s 0 3 false).2 = true ∧
+    (walk hsEnv s 0 3 false).1.pointer = 3 ∧ (walk hsEnv s 0 3 false).1.U ≠ s.U ∧
+    (walk hsEnv (walk hsEnv s 0 3 false).1 0 s.pointer false).2 = true ∧
+    (∀ k ∈ s.U.map (·.1) ++ (walk hsEnv (walk hsEnv s 0 3 false).1 0 2 false).1.U.map (·.1),
+      lookup (walk hsEnv (walk hsEnv s 0 3 false).1 0 2 false).1.U k = lookup s.U k) := by decide
+example : Inv hsEnv prG { canon hsEnv prG 2 with pool := [], pointer := 2 } := genesis_inv hsEnv prG 2 (by decide)
+
 end XV.C01
